@@ -6,6 +6,7 @@ import os
 import random
 import re
 import shutil
+import signal
 import subprocess
 import sys
 import time
@@ -34,18 +35,24 @@ def log(*a):
 
 def run(cmd, timeout=600, cwd=None, env=None, input=None, check=False):
     """Run a command under a timeout; returns (rc, stdout, stderr); rc=124 on timeout."""
+    # own session, so that a timeout kills the whole process group (go build leaves its compilers behind otherwise)
+    p = subprocess.Popen(cmd, cwd=cwd, env=env, stdin=subprocess.PIPE if input is not None else None,
+                         stdout=subprocess.PIPE, stderr=subprocess.PIPE, text=True, errors="replace",
+                         start_new_session=True)
     try:
-        p = subprocess.run(cmd, cwd=cwd, env=env, input=input, capture_output=True, text=True,
-                           timeout=timeout, errors="replace")
-        if check and p.returncode != 0:
-            raise RuntimeError("command failed: %s\n%s\n%s" % (cmd, p.stdout[-4000:], p.stderr[-4000:]))
-        return p.returncode, p.stdout, p.stderr
-    except subprocess.TimeoutExpired as e:
-        out = e.stdout.decode(errors="replace") if isinstance(e.stdout, bytes) else (e.stdout or "")
-        err = e.stderr.decode(errors="replace") if isinstance(e.stderr, bytes) else (e.stderr or "")
+        out, err = p.communicate(input=input, timeout=timeout)
+    except subprocess.TimeoutExpired:
+        try:
+            os.killpg(p.pid, signal.SIGKILL)
+        except OSError:
+            pass
+        out, err = p.communicate()
         if check:
             raise RuntimeError("command timed out: %s" % (cmd,))
-        return 124, out, err
+        return 124, out or "", err or ""
+    if check and p.returncode != 0:
+        raise RuntimeError("command failed: %s\n%s\n%s" % (cmd, out[-4000:], err[-4000:]))
+    return p.returncode, out, err
 
 
 def repo_hash():
